@@ -18,6 +18,7 @@ import (
 	"go.nanomsg.org/mangos/v3/vh/c18"
 	"go.nanomsg.org/mangos/v3/vh/kinds"
 	"go.nanomsg.org/mangos/v3/vh/kit"
+	"go.nanomsg.org/mangos/v3/vh/ledger"
 	_ "go.nanomsg.org/mangos/v3/vh/vipc"
 	"go.nanomsg.org/mangos/v3/vh/vnet"
 	"go.nanomsg.org/mangos/v3/vz/vexplore"
@@ -47,6 +48,8 @@ func init() {
 			{Name: "readqlen-changed-while-a-connection-waits-for-room", Mode: "sched", Bound: map[string]int{"quick": 2, "thorough": 3}[tier], Reset: kit.ResetGlobals, Body: qlenParked,
 				NeedCounters: []string{"resized-with-a-message-waiting-for-room", "received-after-resize"}},
 			{Name: "unsupported-option-on-an-endpoint-beside-a-socket-option", Mode: "sched", Bound: map[string]int{"quick": 2, "thorough": 3}[tier], Reset: kit.ResetGlobals, Body: unsupportedBesideSocketOption},
+			{Name: "unsupported-operations-have-no-side-effect", Mode: "enum", Reset: kit.ResetGlobals, Body: unsupportedNoSideEffect,
+				NeedCounters: []string{"refused-send-left-the-message-with-the-caller", "refused-recv-returned-at-once"}},
 			{Name: "socket-options-reach-existing-dialers", Mode: "enum", Reset: kit.ResetGlobals, Body: sockOptsExisting,
 				NeedCounters: []string{"passed-on-to-existing-dialer"}},
 			{Name: "surveyor-readqlen-per-context", Mode: "enum", Reset: kit.ResetGlobals, Body: surveyorQLen,
@@ -539,6 +542,92 @@ func first(l []string) string {
 // later ones: the dialer reports the new value and behaves accordingly (an asynchronous Dial to a
 // refusing address returns without error and keeps trying; attempts are at least the new
 // ReconnectTime apart).
+// unsupportedNoSideEffect: sending on a receive-only pattern (SUB, PULL and their raw forms) through
+// SendMsg or Send, receiving on a send-only one (PUB, PUSH), opening a context where there are
+// none: the designated error at once and nothing else - the message handed to the refused SendMsg
+// is still the caller's (one owner, not released, bytes intact; the caller frees it afterwards
+// without that being a second release), nothing is transmitted, and the socket works as before.
+func unsupportedNoSideEffect() {
+	k := kinds.All[kit.ChooseFree(len(kinds.All))]
+	if k.CanSend && k.CanRecv && k.Ctx {
+		return
+	}
+	ledger.Install()
+	x := k.Open("c19un", true, false)
+	x.Quiet()
+	if !k.CanSend {
+		body := "not-for-sending-" + k.Name
+		m := mangos.NewMessage(len(body))
+		m.Body = append(m.Body, body...)
+		m.Header = append(m.Header, 0x80, 0, 0, 1)
+		c := kit.Start("SendMsg", func() (interface{}, error) { return nil, x.S.SendMsg(m) })
+		kit.Quiesce()
+		if !c.Done() || c.Err != mangos.ErrProtoOp {
+			kit.Failf("unsupported-op-result:"+k.Name+".SendMsg", "%s: SendMsg done=%v %s, want ErrProtoOp at once", k.Name, c.Done(), kit.ErrName(c.Err))
+		}
+		if ledger.Released(m) || ledger.Owned(m) != 1 {
+			kit.Failf("unsupported-op-side-effect:"+k.Name+".SendMsg", "%s: SendMsg was refused with ErrProtoOp, yet the caller's message has been released by the library (owners %d)", k.Name, ledger.Owned(m))
+		}
+		if string(m.Body) != body {
+			kit.Failf("unsupported-op-side-effect:"+k.Name+".SendMsg", "%s: SendMsg was refused with ErrProtoOp, the caller's message body changed to %q", k.Name, m.Body)
+		}
+		// other messages of the class come and go; the caller's is still intact, then released once
+		for i := 0; i < 3; i++ {
+			o := mangos.NewMessage(len(body))
+			o.Body = append(o.Body, "################################"[:len(body)%32]...)
+			o.Free()
+		}
+		if string(m.Body) != body {
+			kit.Failf("unsupported-op-side-effect:"+k.Name+".SendMsg", "%s: after a refused SendMsg the caller's message was overwritten by later allocations: %q", k.Name, m.Body)
+		}
+		m.Free()
+		c2 := kit.Start("Send", func() (interface{}, error) { return nil, x.S.Send([]byte(body)) })
+		kit.Quiesce()
+		if !c2.Done() || c2.Err != mangos.ErrProtoOp {
+			kit.Failf("unsupported-op-result:"+k.Name+".Send", "%s: Send done=%v %s, want ErrProtoOp at once", k.Name, c2.Done(), kit.ErrName(c2.Err))
+		}
+		if n := x.P.NumSent(); n != 0 {
+			kit.Failf("unsupported-op-side-effect:"+k.Name+".Send", "%s: refused sends put %d message(s) on the wire", k.Name, n)
+		}
+		kit.Count("refused-send-left-the-message-with-the-caller")
+	}
+	if !k.CanRecv {
+		c := kit.Start("RecvMsg", func() (interface{}, error) { return x.S.RecvMsg() })
+		kit.Quiesce()
+		if !c.Done() || c.Err != mangos.ErrProtoOp {
+			kit.Failf("unsupported-op-result:"+k.Name+".RecvMsg", "%s: RecvMsg done=%v %s, want ErrProtoOp at once", k.Name, c.Done(), kit.ErrName(c.Err))
+		}
+		kit.Count("refused-recv-returned-at-once")
+	}
+	if !k.Ctx {
+		if cx, err := x.S.OpenContext(); err != mangos.ErrProtoOp || cx != nil {
+			kit.Failf("unsupported-op-result:"+k.Name+".OpenContext", "%s: OpenContext returned %v / %s, want nil / ErrProtoOp", k.Name, cx, kit.ErrName(err))
+		}
+	}
+	// the socket still does what it can
+	if k.CanRecv {
+		x.PrepRecv()
+		if x.Feed("after-refusal") {
+			c := kit.Start("Recv", func() (interface{}, error) { return x.Recv() })
+			kit.Quiesce()
+			if !c.Done() || c.Err != nil || c.Val.(string) != "after-refusal" {
+				kit.Failf("unsupported-op-side-effect:"+k.Name, "%s: after the refused operations Recv: done=%v %s %q", k.Name, c.Done(), kit.ErrName(c.Err), c.Val)
+			}
+		}
+	}
+	if k.CanSend {
+		x.PrepSend()
+		c := kit.Start("Send", func() (interface{}, error) { return nil, x.Send("after-refusal") })
+		kit.Quiesce()
+		if !c.Done() || c.Err != nil {
+			kit.Failf("unsupported-op-side-effect:"+k.Name, "%s: after the refused operations Send: done=%v %s", k.Name, c.Done(), kit.ErrName(c.Err))
+		}
+	}
+	kit.Observe("%s", k.Name)
+	kit.Must("Close", func() { _ = x.S.Close() })
+	kit.Quiesce()
+}
+
 func sockOptsExisting() {
 	opt := []string{mangos.OptionDialAsynch, mangos.OptionReconnectTime, mangos.OptionMaxReconnectTime}[kit.ChooseFree(3)]
 	k := kinds.ByName([]string{"pair", "xpub", "req"}[kit.ChooseFree(3)])
